@@ -89,6 +89,11 @@ CHECKS = {
    text="1-4 associations with 0-3 polls each and optional keep-alive, user READs and poll demands at generated times, an outstation that answers promptly, late or never. Checked on the trace: one request outstanding at a time, user requests in order and ahead of polls, polls never early and never late while the channel is idle, nothing due is left waiting at quiescence, keep-alive only after the configured silence, bounded task polls while idle (no spinning).",
    note="A demand issued while that very poll is running is not judged. Turn-taking between associations is asserted through the idle/ordering clauses rather than a separate round-robin clause.",
    design="DESIGN.md §5 C19"),
+ "C20": dict(
+   technique="exhaustive enumeration of enum conversions (variant lists read back from the generated FFI) + property-based struct conversion checks + differential (binding vs native) model-based database op sequences",
+   text="(a) Every variant of every binding->native enum conversion (update flags type, event class, file mode, command mode, time sync mode, function code, UDP/link modes, command status, 135 variations, decode levels, event mode, time quality, double bit, control codes, restart delay type, write-time/freeze results, auto time sync) is converted and compared by name with its namesake; round trips where both directions exist; native->binding enums (read/task types, client/connection states, file type, broadcast action, operate type, every task error into each of the eight binding error enums, command / time-sync / file errors, qualifier and response function inside header structures) from hand lists guarded by exhaustive matches, with the documented folding table. All seven point configuration structs over every static x event variation pair. (b) Generated measurements (7 types, value bit patterns, every flag octet, 48-bit times x 3 qualities) both directions against an independent expectation; 19 kinds of configuration / header / status structures field by field. (c) Differential database: generated sequences of add/remove/update/update_2/update_flags/get/define-attribute through the database_* binding functions on one database and the native traits on a twin (event buffers 0/1/2/50 so overflow ids occur): every return value and the final state of every touched point must agree, also through database_get_*.",
+   note="The shadow build has the tls and serial features off: TLS / serial configuration conversions are not checked. Sequence numbers inside headers can only be produced as 0 outside the library. Request/command-set builder functions of the binding are not compared (the native writers are crate-private). The rename/folding tables in harness_ffi are part of the trusted base.",
+   design="DESIGN.md §5 C20"),
 }
 NOT_YET = {
 }
@@ -108,7 +113,7 @@ def main():
               "thorough_cmd": f"bin/check {pid} thorough",
               "evidence_file": f"/verif/evidence/{pid}.json",
               "replay_cmd_template": f"bin/check {pid} replay {{path}}",
-              "engine": "verif-harness",
+              "engine": "verif-harness-ffi" if pid=="C20" else "verif-harness",
               "level_claimed": {"category":"exploration","text":c['text'],"design_ref":c['design']},
               "level_note": c['note'],
               "technique": c['technique'],
@@ -125,8 +130,10 @@ def main():
         "source_commits":hook_commits,
         "add_only":True,
       },
-      "engines":[{"name":"verif-harness","path":"/verif/harness","serves_properties":sorted(CHECKS.keys()),
-                  "kind_free_text":"Rust harness compiled into the dnp3 crate (hook H1) in a non-test build; proptest TestRunner with fixed seeds, shrinking to JSON replay files, independent reference codecs, deterministic single-thread tokio rigs with paused clock over an in-memory PhysLayer (hook H3)"}],
+      "engines":[{"name":"verif-harness","path":"/verif/harness","serves_properties":sorted(k for k in CHECKS.keys() if k!="C20"),
+                  "kind_free_text":"Rust harness compiled into the dnp3 crate (hook H1) in a non-test build; proptest TestRunner with fixed seeds, shrinking to JSON replay files, independent reference codecs, deterministic single-thread tokio rigs with paused clock over an in-memory PhysLayer (hook H3)"},
+                 {"name":"verif-harness-ffi","path":"/verif/harness_ffi","serves_properties":["C20"],
+                  "kind_free_text":"Rust harness compiled into the dnp3-ffi crate (hook H4) by the shadow package /verif/shadow_ffi, whose build script runs the real oo-bindgen code generation and reads the variant list of every generated enum back from ffi.rs; shares the proptest runner / evidence / replay engine of verif-harness"}],
       "checks":checks,
       "not_applicable":na,
       "notes":"exit codes: 0 held (KNOWN-FINDING lines possible), 1 VIOLATION, 2 INCONCLUSIVE (build failure / watchdog / generator health). VERIF_SEED selects the PRNG stream; VERIF_SCALE=<percent> scales generated case counts.",
